@@ -592,7 +592,7 @@ class Interp:
                                 items.extend(els)
                             else:
                                 items.append(xv)
-                        v = ("tuple",) + tuple(items) if items is not None and not isinstance(e, ast.Set) else TOP
+                        v = ("tuple",) + tuple(items) if items is not None and not isinstance(e, ast.Set) else ("set", ("copy", ("tuple",) + tuple(items))) if items is not None else TOP
                     elif (isinstance(e, ast.Tuple) and (e.elts or getattr(d, "exact_lists", False))) or (isinstance(e, ast.List) and getattr(d, "exact_lists", False)) \
                             or (isinstance(e, ast.Set) and getattr(d, "exact_lists", False) and all(isinstance(x, ast.Constant) for x in e.elts)):
                         # (a set of constants is iterated in source order: one of its possible orders)
@@ -603,18 +603,27 @@ class Interp:
             return out
         if isinstance(e, ast.Dict):
             out = []
-            exact = getattr(d, "exact_dicts", False) and all(k is not None for k in e.keys)
+            exact = getattr(d, "exact_dicts", False)
             keyer = getattr(d, "_dkey", None)
-            for r in self.eval_list([x for x in list(e.keys) + list(e.values) if x is not None], st, fr):
+            for r in self.eval_list([x if x is not None else ast.Constant(value=None) for x in list(e.keys)] + list(e.values), st, fr):
                 if r.kind == "exc":
                     out.append(r)
                     continue
-                r = self._box_members([x for x in list(e.keys) + list(e.values) if x is not None], r)
+                r = self._box_members([x if x is not None else ast.Constant(value=None) for x in list(e.keys)] + list(e.values), r)
                 items = None
                 if exact:
                     keys_, vals_ = r.value[: len(e.keys)], r.value[len(e.keys):]
                     items = []
                     for kn, kv, v in zip(e.keys, keys_, vals_):
+                        if kn is None:
+                            # {**other}: the items of an exact dict, later keys replacing earlier ones
+                            v = unbox(v, r.state)
+                            if not (isinstance(v, tuple) and v[:1] == ("kwdict",)):
+                                items = None
+                                break
+                            for k2, v2 in v[1]:
+                                items = [(k_, v_) for k_, v_ in items if k_ != k2] + [(k2, v2)] if all(k_ != k2 for k_, _ in items) or True else items
+                            continue
                         if isinstance(kn, ast.Constant):
                             ok_, key_ = True, kn.value
                         elif keyer is not None:
